@@ -15,6 +15,7 @@ import (
 	"os"
 	"os/exec"
 	"path/filepath"
+	"sort"
 	"strings"
 	"sync"
 )
@@ -177,4 +178,80 @@ func runMutants(id, repo string) []mutantEvidence {
 		}
 	}
 	return out
+}
+
+// runNeutral applies every behaviour-preserving edit and requires all claimed checks to stay silent.
+func runNeutral(repo string) int {
+	var ids []string
+	for id := range registry {
+		ids = append(ids, id)
+	}
+	sort.Strings(ids)
+	exe, _ := os.Executable()
+	fails := 0
+	for _, m := range mutantTable {
+		if m.Rule != "NEUTRAL" {
+			continue
+		}
+		dir, err := os.MkdirTemp("", "gormverif-neutral-")
+		if err != nil {
+			fmt.Println(err)
+			return 2
+		}
+		if err := copyRepo(repo, dir); err != nil {
+			fmt.Println(err)
+			return 2
+		}
+		stale, _ := applyEdits(dir, m)
+		if stale != "" {
+			fmt.Printf("neutral %-44s stale: %s\n", m.Name, stale)
+			os.RemoveAll(dir)
+			continue
+		}
+		var noisy []string
+		var mu sync.Mutex
+		var wg sync.WaitGroup
+		sem := make(chan struct{}, 8)
+		for _, id := range ids {
+			wg.Add(1)
+			go func(id string) {
+				defer wg.Done()
+				sem <- struct{}{}
+				defer func() { <-sem }()
+				cmd := exec.Command(exe, "check", id, "--tier", "quick", "--repo", dir, "--no-evidence")
+				out, err := cmd.CombinedOutput()
+				if err != nil {
+					mu.Lock()
+					noisy = append(noisy, id+": "+firstViolation(string(out)))
+					mu.Unlock()
+				}
+			}(id)
+		}
+		wg.Wait()
+		os.RemoveAll(dir)
+		sort.Strings(noisy)
+		if len(noisy) == 0 {
+			fmt.Printf("neutral %-44s silent\n", m.Name)
+		} else {
+			fails++
+			fmt.Printf("neutral %-44s FALSE ALARM\n", m.Name)
+			for _, n := range noisy {
+				fmt.Printf("    %s\n", n)
+			}
+		}
+	}
+	if fails > 0 {
+		return 1
+	}
+	return 0
+}
+
+func firstViolation(out string) string {
+	for _, line := range strings.Split(out, "\n") {
+		t := strings.TrimSpace(line)
+		if strings.HasPrefix(t, "rule=") || strings.HasPrefix(t, "CHECKER-ERROR") || strings.HasPrefix(t, "load error") {
+			return t
+		}
+	}
+	return firstLines(out, 2)
 }
